@@ -99,7 +99,9 @@ def translate(raw):
 
 def main(c):
     exe = c.cxx("driver", ["driver.cxx"], REPO_SOURCES, libs=WRAP)
+    c.log("driver built")
     acc = c.ocaml_extract("c46", MODEL, EXTRACT, "acceptor.ml")
+    c.log("acceptor extracted and built")
     c.trusted("link-time wrappers of sem_open/sem_wait/sem_post/sem_close/geteuid in props/C46/driver.cxx (log, then forward to libc); "
               "the log order argument stated at the top of driver.cxx",
               "POSIX named-semaphore semantics as written in C46Model.v (sem_open O_CREAT creates with 1 only if absent; "
@@ -110,8 +112,8 @@ def main(c):
         scen = [(c.replay["replay"].get("scenario_name", "replay"), c.replay["replay"]["scenario"])]
     else:
         scen = list(CANON)
-        n = c.pick(60, 600)
-        kmax = c.pick(6, 12)
+        n = c.pick(30, 400)
+        kmax = c.pick(5, 12)
         for i in range(n):
             scen.append(("rnd-%d" % i, gen_scenario(c.rng, kmax)))
     base_uid = 1000000000 + (os.getpid() % 100000) * 10000
@@ -133,6 +135,7 @@ def main(c):
 
     with ThreadPoolExecutor(max_workers=4) as ex:
         list(ex.map(run_one, range(len(scen))))
+    c.log("%d scenarios run on the real code" % len(scen))
     # ---- translate, decide which model the code is, run the acceptor
     trans = {}
     any_xp = False
@@ -201,10 +204,11 @@ def main(c):
     c.coverage["traces_validated_against_impl"] = accepted
     c.coverage["rule"] = ("8 fixed histories + seeded random histories: 1-4 phases of 1..%d concurrent processes, each 0-3 lock/unlock rounds "
                           "with holds 0-2 ms, ending by exit() / _exit() / exit() or _exit() inside the section; non-trivial = at least two "
-                          "lock-taking processes run concurrently or the history has at least two phases; distinct = distinct scenario text" % c.pick(6, 12))
+                          "lock-taking processes run concurrently or the history has at least two phases; distinct = distinct scenario text" % c.pick(5, 12))
     c.notes.append("code classified as model kind '%s' (%s); scenarios with value drift: %d, with two processes inside: %d" % (
         kind, "a destructor post was logged" if any_xp else "no destructor post in any trace", drift_seen, two_seen))
     c.notes.append("no source hook needed: observation by link-time wrapping of the libc calls made by MFrontLock.cxx; private semaphore name through wrapped geteuid")
+    c.log("traces judged: %d accepted as %s-destructor code" % (accepted, kind))
     # ---- Coq
     files = MODEL + ["C46Proofs.v", "Properties_C46.v"] + (["Properties_C46_pinned.v"] if any_xp else [])
     res = c.coq(files, timeout=600)
